@@ -2,6 +2,7 @@
 were created; they must not overwrite newer state.  STALE-ts, STALE-removal, MUST-admit-live."""
 from .core import RuleResult, CheckFailure
 from .kernel import norm
+from .roles import ev_is
 from .roles import CHAN_RECV
 from .roles import get_roles, DASHMAP_REMOVE
 from .symex import fmt, subterms, PathLimit
@@ -160,7 +161,7 @@ def rule_admit_live(ctx):
     except PathLimit:
         raise CheckFailure('MUST-admit-live: path limit')
     for p in paths:
-        pushes = [e for e in p.events if e[0] == 'call' and str(e[1]).endswith('push_back_ao')]
+        pushes = [e for e in p.events if ev_is(ctx, e, 'push', 'ao')]
         if not pushes:
             continue
         # conds established before the push: we use all conds of the path that precede it in program order -- conds are
